@@ -2,7 +2,7 @@
    the exact cone moments; with |det| the rule is exact only on star-shaped solids. *)
 From Coq Require Import Reals QArith Qreals List Lia Lra.
 Require Import Cox.Num.Ops Cox.Num.Transfer Cox.Geo.Vec Cox.Geo.Sums Cox.Model.Mesh Cox.Model.Entry
-  Cox.Thm.MeshThm Cox.Thm.PolyhedronThm Cox.Thm.ClosedThm Cox.Thm.MeshTransfer.
+  Cox.Thm.MeshThm Cox.Thm.PolyhedronThm Cox.Thm.ClosedThm Cox.Thm.MeshTransfer Cox.Thm.TetraMoments.
 Import ListNotations.
 Local Open Scope R_scope.
 
@@ -53,3 +53,12 @@ Print Assumptions C02_inertia_abs_refuted.
 Example C02_cube_hypotheses :
   closedb cubeT = true /\ (cone0 Qops (resolve Qops cubeV cubeT) == 1)%Q.
 Proof. vm_compute. split; reflexivity. Qed.
+
+(* level 0 (shared with C01): the tetrahedron moments are the integrals of 1, x_i, x_i x_j over the signed tetrahedron *)
+Theorem C02_tetrahedron_moments_are_integrals :
+  forall (t : @tri R) (i j : nat),
+    tet_int (fun _ => 1) t = m0 Rops t
+    /\ tet_int (fun X => vcomp i X) t = m1 Rops i t
+    /\ tet_int (fun X => vcomp i X * vcomp j X) t = m2 Rops i j t.
+Proof. intros t i j. repeat split; [apply m0_is_integral | apply m1_is_integral | apply m2_is_integral]. Qed.
+Print Assumptions C02_tetrahedron_moments_are_integrals.
